@@ -231,13 +231,13 @@ class Objects(object):
     def __init__(self):
         self.cache = {}
 
-    def get(self, cls, R, C, enc):
-        k = (cls, R, C, enc)
+    def get(self, cls, R, C, enc, errors='replace'):
+        k = (cls, R, C, enc, errors)
         o = self.cache.get(k)
         if o is None:
             with warnings.catch_warnings():
                 warnings.simplefilter('ignore')
-                o = self.cache[k] = cls(R, C, encoding=enc)
+                o = self.cache[k] = cls(R, C, encoding=enc, encoding_errors=errors)
         return o
 
 
@@ -429,6 +429,65 @@ def screen_transition(objs, R, C, pre, name, args, vi, expected, col):
             col.count['nontrivial'] += 1
 
 
+# Rejected operations.  A character operation whose argument the screen cannot take - bytes on a screen built with
+# encoding=None ("passing bytes in will raise TypeError", class documentation), bytes that are not valid in the screen's
+# encoding under encoding_errors='strict' (UnicodeDecodeError) - inserts / puts / fills nothing, so by the property
+# ("changes exactly the cells ... its documentation describes and leaves every other cell untouched") the whole state
+# (grid, cursor, saved cursor, scroll region) is what it was: Screen!RejectedS.
+#   (encoding, encoding_errors, argument, kind): kind 'bytes' -> TypeError documented, 'decode' -> UnicodeDecodeError
+# NOT included, because the unchanged tree itself mutates the grid before raising (reported to the maintainers of the
+# harness, see DESIGN / the builder's report): an argument that decodes to *no* character - empty str / empty bytes on
+# any screen, or an incomplete multi-byte character such as b'\xe2' on a utf-8 screen or b'\x82' on a shift_jis screen
+# (any error policy) - makes insert(ch) and insert_abs(r, c, ch) shift the row right and only then raise IndexError
+# from put_abs (''[0]); the incomplete bytes also stay in the screen's incremental decoder and are prepended to the
+# next bytes argument.  put / put_abs / fill / fill_region raise the same IndexError before touching a cell.
+REJECTS = [(None, 'replace', b'x', 'bytes'), (None, 'strict', b'\xe9', 'bytes'), (None, 'replace', b' ', 'bytes'),
+           ('ascii', 'strict', b'\xc9', 'decode'), ('utf-8', 'strict', b'\xff', 'decode'), ('utf-8', 'strict', b'\xe2\x28', 'decode'),
+           ('shift_jis', 'strict', b'\xfd\xfd', 'decode'), ('utf-16-le', 'strict', b'\x00\xd8\x00\x00', 'decode'),
+           ('ascii', 'strict', b'\x80', 'decode')]
+REJ_EXC = {'bytes': 'TypeError', 'decode': 'UnicodeDecodeError'}
+
+
+def screen_rejected(objs, R, C, pre, name, args, ri, col):
+    """the action of this transition spelled with an argument the screen rejects: the state must stay `pre`"""
+    enc, errors, data, kind = REJECTS[ri % len(REJECTS)]
+    o = objs.get(SCR.screen, R, C, enc, errors)
+    m = METHOD[name]
+    cargs = tuple(args[:-1]) + (data,)
+    load_screen(o, pre, 'y')
+    col.count['evaluations'] += 1
+    case = {'kind': 'screen-rejected', 'rows': R, 'cols': C, 'pre': st_json(pre), 'action': name, 'args': list(args), 'reject': ri,
+            'screen': 'screen(%d, %d, encoding=%r, encoding_errors=%r)' % (R, C, enc, errors),
+            'call': '%s(%s)' % (m, ', '.join(repr(x) for x in cargs)), 'expected': [st_json(pre)]}
+    sig = {'method': m, 'rows': R, 'cols': C, 'rejected': kind}
+    exc = None
+    try:
+        getattr(o, m)(*cargs)
+    except Exception as e:
+        exc = e
+    if exc is None:
+        if kind == 'bytes':             # documented: "passing bytes in will raise TypeError"
+            col.add('C19:%s-bytes-accepted' % m, case, {'call': case['call'], 'on': case['screen'], 'observed': raw_state(o)}, sig)
+        else:
+            col.count['not_rejected'] += 1          # the documentation does not promise the exception: nothing to compare
+        return
+    if type(exc).__name__ != REJ_EXC[kind]:
+        col.add('C19:%s-raised' % m, case, {'call': case['call'], 'on': case['screen'], 'in_state': case['pre'],
+                                            'exception': '%s: %s' % (type(exc).__name__, exc), 'observed': raw_state(o)}, sig)
+        return
+    detail = {'call': case['call'], 'on': case['screen'], 'in_state': case['pre'], 'raised': '%s: %s' % (type(exc).__name__, exc),
+              'note': 'the operation was rejected, nothing was put / inserted / filled: the state must be unchanged'}
+    if not grid_shape_ok(o.w, R, C):
+        col.add('C19:%s-shape' % m, case, dict(detail, observed=raw_state(o)), sig)
+        return
+    got = proj_screen(o, 'y', True)
+    if got != pre[:4]:
+        col.add(classify_screen(m, pre, [pre], got), case, dict(detail, observed=st_json(got), reference_allows=case['expected']), sig)
+        return
+    col.count['rejected'] += 1
+    col.count['rejected:%s:%s' % (m, kind)] += 1
+
+
 _G = {}
 
 
@@ -442,6 +501,8 @@ def _screen_worker(rng_):
             continue
         name, args = g.labels[g.lab[i]]
         screen_transition(objs, R, C, g.states[g.pre[i]], name, args, g.vi(i), g.expected(i), col)
+        if name in CHAR_OPS:
+            screen_rejected(objs, R, C, g.states[g.pre[i]], name, args, g.vi(i) // 11, col)
     return col
 
 
